@@ -331,6 +331,8 @@ impl WriteSource for pr::Ident {
 
 fn keywords() -> &'static HashSet<&'static str> {
     static KEYWORDS: OnceLock<HashSet<&'static str>> = OnceLock::new();
+    #[cfg(max_sixty_prql_verif)]
+    let _v = crate::verif_hooks::once("PRQL_KEYWORDS", KEYWORDS.get().is_some());
     KEYWORDS.get_or_init(|| {
         HashSet::from_iter([
             "let", "into", "case", "prql", "type", "module", "internal", "func",
@@ -340,6 +342,8 @@ fn keywords() -> &'static HashSet<&'static str> {
 
 fn valid_prql_ident() -> &'static Regex {
     static VALID_PRQL_IDENT: OnceLock<Regex> = OnceLock::new();
+    #[cfg(max_sixty_prql_verif)]
+    let _v = crate::verif_hooks::once("VALID_PRQL_IDENT", VALID_PRQL_IDENT.get().is_some());
     VALID_PRQL_IDENT.get_or_init(|| {
         // Pomsky expression (regex is to Pomsky what SQL is to PRQL):
         // ^ ('*' | [ascii_alpha '_$'] [ascii_alpha ascii_digit '_$']* ) $
